@@ -146,8 +146,11 @@ def r4_opaque_format(text):
 
 
 def r3_tuple_closure_params(text):
-    """R3: `|(a, b)| body` -> `|p__| { let (a, b) = p__; body }`."""
+    """R3: `|(a, b)| body` -> `|p__| { let (a, b) = p__; body }`;  `|_| body` -> `|_p__| body`
+    (Verus rejects tuple patterns and `_` as closure parameters)."""
     cnt = 0
+    text, n0 = re.subn(r"\|\s*_\s*\|", "|_p__|", text)
+    cnt += n0
     while True:
         m = L.mask(text)
         done = True
@@ -178,6 +181,9 @@ def r12_pub_fields(text):
     struct fields -> pub (named and tuple structs)."""
     cnt = 0
     text, n = re.subn(r"\bpub\s*\(\s*(crate|super|self|in [^)]*)\s*\)", "pub", text)
+    cnt += n
+    # private struct/enum/const/type declarations become pub as well
+    text, n = re.subn(r"^(\s*(?:#\[[^\]]*\]\s*)*)(struct|enum|const|type)\b", r"\1pub \2", text, count=1)
     cnt += n
     m = L.mask(text)
     k = re.search(r"\bstruct\s+\w+", m)
